@@ -501,5 +501,81 @@ pub fn run(ctx: &mut Ctx) {
         }
         ctx.count("oracle_mixed_traffic");
     }
+    // ---- oracle 4: a failed write does not bend the stream (Write-based header calls, a writer that now and then
+    //      refuses at the first byte): what reaches the wire before and after a refusal is the independent
+    //      RC4-drop1024 stream over EVERYTHING the encrypter was asked to send, the refused header included
+    {
+        struct Refuse;
+        impl std::io::Write for Refuse {
+            fn write(&mut self, _b: &[u8]) -> std::io::Result<usize> { Err(std::io::Error::new(std::io::ErrorKind::BrokenPipe, "refused")) }
+            fn flush(&mut self) -> std::io::Result<()> { Ok(()) }
+        }
+        let n = if quick { 300 } else { 3000 };
+        for k in 0..n {
+            let key = gen_key(&mut rng, k + 21);
+            let dir = k % 2;                                   // 0 client -> server, 1 server -> client
+            let facade = (k / 2) % 2 == 0;
+            let items = 2 + rng.range(0, 10) as usize;
+            let mut script: Vec<(u32, u32, bool)> = Vec::new();
+            let mut plain: Vec<u8> = Vec::new();
+            let mut keep: Vec<(usize, usize)> = Vec::new();
+            for i in 0..items {
+                let refused = (i > 0 && rng.chance(1, 4)) || (k % 7 == 0 && i == 0);
+                let start = plain.len();
+                if dir == 1 {
+                    let size = match rng.range(0, 4) { 0 => 0x7FFF, 1 => 0x8000, 2 => rng.range(0x8000, 0x7FFFFF) as u32, _ => rng.range(0, 0x7FFF) as u32 };
+                    let opcode = rng.range(0, 0xFFFF) as u32;
+                    if size <= 0x7FFF { plain.extend_from_slice(&[(size >> 8) as u8, size as u8, opcode as u8, (opcode >> 8) as u8]); }
+                    else { plain.extend_from_slice(&[0x80 | (size >> 16) as u8, (size >> 8) as u8, size as u8, opcode as u8, (opcode >> 8) as u8]); }
+                    script.push((size, opcode, refused));
+                } else {
+                    let (size, opcode) = (rng.range(0, 0xFFFF) as u32, rng.next() as u32);
+                    plain.extend_from_slice(&[(size >> 8) as u8, size as u8]); plain.extend_from_slice(&opcode.to_le_bytes());
+                    script.push((size, opcode, refused));
+                }
+                if !refused { keep.push((start, plain.len())); }
+            }
+            let sc = script.clone();
+            let r = catch(move || {
+                let (mut c, mut s) = pair(key);
+                let (c2, s2) = pair(key);
+                let (mut ce, _) = c2.split();
+                let (mut se, _) = s2.split();
+                let mut wire: Vec<u8> = Vec::new();
+                let mut unreported = 0usize;
+                for (size, opcode, refused) in sc.iter() {
+                    let res = match (dir, refused, facade) {
+                        (1, false, false) => se.write_encrypted_server_header(&mut wire, *size, *opcode as u16),
+                        (1, true, false) => se.write_encrypted_server_header(&mut Refuse, *size, *opcode as u16),
+                        (1, false, true) => s.write_encrypted_server_header(&mut wire, *size, *opcode as u16),
+                        (1, true, true) => s.write_encrypted_server_header(&mut Refuse, *size, *opcode as u16),
+                        (_, false, false) => ce.write_encrypted_client_header(&mut wire, *size as u16, *opcode),
+                        (_, true, false) => ce.write_encrypted_client_header(&mut Refuse, *size as u16, *opcode),
+                        (_, false, true) => c.write_encrypted_client_header(&mut wire, *size as u16, *opcode),
+                        (_, true, true) => c.write_encrypted_client_header(&mut Refuse, *size as u16, *opcode),
+                    };
+                    if res.is_ok() == *refused { unreported += 1; }
+                }
+                (wire, unreported)
+            });
+            ctx.oracle_runs += 1;
+            let dname = if dir == 0 { "client_to_server" } else { "server_to_client" };
+            let sj: Vec<String> = script.iter().map(|(s, o, rf)| format!("{{\"header\":[{},{}],\"writer_refuses\":{}}}", s, o, rf)).collect();
+            let det = |what: &str| format!("{{\"what\":\"{}\",\"direction\":\"{}\",\"key\":\"{}\",\"combined_object\":{},\"script\":[{}]}}", what, dname, hex(&key), facade, sj.join(","));
+            match r {
+                None => ctx.fail("panic", det("panic while writing headers to a writer that sometimes refuses")),
+                Some((wire, unreported)) => {
+                    let full = RefRc4::wrath(if dir == 0 { &C2S } else { &S2C }, &key).xor(&plain);
+                    let want: Vec<u8> = keep.iter().flat_map(|(a, b)| full[*a..*b].to_vec()).collect();
+                    if unreported != 0 { ctx.fail("write_error_swallowed", det("a write result does not say whether the writer accepted the header")); }
+                    else if wire != want {
+                        let at = wire.iter().zip(want.iter()).position(|(a, b)| a != b).unwrap_or(wire.len().min(want.len()));
+                        ctx.fail("stream_after_failed_write", det(&format!("after a refused write the bytes on the wire are not the independent stream over everything the encrypter was asked to send, first at wire offset {}", at)));
+                    }
+                }
+            }
+            ctx.count("oracle_failed_write_histories");
+        }
+    }
     ctx.notes.push("independent oracle: textbook RC4 + hand-written HMAC over the sha-1 crate, direction constants copied from the property text; validated on RFC 6229 (2 keys, 32 bytes) and RFC 2202 (cases 1, 2, 6) at the start of every run".to_string());
 }
